@@ -516,13 +516,15 @@ func ParseFile(path string, pkgPath string) (*File, error) {
 				return nil, fail(fmt.Errorf("clause outside func"))
 			}
 			switch w {
-			case "requires", "ensures":
+			case "requires", "ensures", "assumes":
 				cl, err := parseClause(rest, ln.pos)
 				if err != nil {
 					return nil, fail(err)
 				}
 				if w == "requires" {
 					cur.Requires = append(cur.Requires, cl)
+				} else if w == "assumes" {
+					cur.Assumes = append(cur.Assumes, cl)
 				} else {
 					cur.Ensures = append(cur.Ensures, cl)
 				}
@@ -560,6 +562,9 @@ func ParseFile(path string, pkgPath string) (*File, error) {
 				cur.Pure = true
 			case "noeffect":
 				cur.NoEffect = true
+			case "silent":
+				cur.NoEffect = true
+				cur.Silent = true
 			case "noinline":
 				cur.NoInline = true
 			case "inline":
@@ -681,7 +686,7 @@ var keywords = map[string]bool{
 	"spec": true, "ghost": true, "axiom": true, "lemma": true, "event": true, "func": true,
 	"requires": true, "ensures": true, "modifies": true, "pure": true, "noeffect": true, "trusted": true,
 	"let": true, "loop": true, "callsite": true, "assert": true, "import": true, "package": true,
-	"noinline": true, "inline": true, "props": true, "fresh": true, "opt": true, "stablegetters": true, "dyncall": true,
+	"noinline": true, "inline": true, "props": true, "fresh": true, "opt": true, "stablegetters": true, "dyncall": true, "silent": true, "assumes": true,
 }
 
 func firstWord(s string) string {
